@@ -202,6 +202,14 @@ def run(ctx):
     for st in g.states.values():
         sh = st["shape"]
         r = {-1: -0.5, 0: 0.0, 1: 0.5}[sh["rsign"]]
+        nidx = 1.5
+        rf = sh.get("rform", "scalar")
+        if rf != "scalar":
+            # two layers; the signed radius is the inner or the outer one
+            kind, where = rf.split("_")
+            pair = [r * 0.6, 0.5] if where == "inner" else [0.3, r if r != 0.5 else 0.5]
+            r = {"list": list, "tuple": tuple, "array": np.array}[kind](pair)
+            nidx = [1.5, 1.4]
         cen = {0: 1.0, 2: (0.0, 1.0), 3: (0.0, 1.0, 2.0), 4: (0.0, 1.0, 2.0, 3.0)}[sh["clen"]]
         ctx.case(("ctor", sh))
         with warnings.catch_warnings():
@@ -211,12 +219,12 @@ def run(ctx):
                     if sh["member"] != "sphere":
                         ctx.trace_ok()
                         continue        # member kind is irrelevant for a single sphere
-                    Sphere(n=1.5, r=r, center=cen)
+                    Sphere(n=nidx, r=r, center=cen)
                 else:
                     second = {"sphere": None, "number": 3.0,
                               "ellipsoid": Ellipsoid(n=1.5, r=(1.0, 1.0, 2.0), center=(9.0, 0, 0))}[sh["member"]]
                     if second is None:
-                        second = Sphere(n=1.5, r=r, center=cen)
+                        second = Sphere(n=nidx, r=r, center=cen)
                     elif sh["rsign"] < 0 or sh["clen"] != 3:
                         ctx.trace_ok()
                         continue
